@@ -136,6 +136,21 @@ CHECKS = {
                 "covered by C08 (find_duplicates).",
         "design": "3 C05",
     },
+    "C01": {
+        "text": "Bounded symbolic verification of read-to-isoform assignment on a catalogue of 10 locus templates (single isoform, exon "
+                "skipping, alternative site far / within delta, ISM-nested, mono-exonic inside an intron, antisense overlap, alternative ends, "
+                "retained intron, micro-exon; both strands): for every isoform T and exon sub-chain, a read whose inner splice sites are "
+                "T's shifted by independent symbolic jitters in [-delta, delta] and whose ends are symbolic positions inside the terminal "
+                "exons is pushed through the real CombinedProfileConstructor + LongReadAssigner (JunctionComparator, PolyAVerifier) with the "
+                "parameter objects of the real isoquant.set_matching_options; z3 proves on every path: consistent assignment type, every "
+                "reported isoform intron-chain compatible, T (or a delta-indistinguishable twin) reported for full-length reads, unique to T "
+                "when T is the only compatible isoform; and for reads with one edit of symbolic size >= 400 bp: never a consistent type. "
+                "quick: preset default, full chain + one rotating sub-chain per isoform; thorough: 4 presets x all sub-chains + polyA tails.",
+        "note": "Trusted: z3, symx proxies (floats as exact rationals). The claim is 'for every read of these shapes on these loci': annotations "
+                "outside the catalogue, indels, reads ending outside the isoform and MAPQ filtering are outside it. End tolerance of the "
+                "compatibility oracle: max(delta, minor_exon_extension).",
+        "design": "3 C01",
+    },
 }
 
 NOT_BUILT = "check not built yet (build in progress, see DESIGN.md section 5); no claim is made"
